@@ -18,6 +18,7 @@ ASSUMPTIONS = ["runs that do not converge are excluded and counted (the statemen
 
 H = 3600
 DEM = {"fill": [0.2, 0.2, 0.3, 0.2], "drain": [2.2, 2.0, 2.4, 2.1], "fill_drain": [0.2, 0.2, 0.2, 2.4, 2.4, 2.4], "saw": [0.2, 2.4, 0.3, 2.2]}
+DEM_PAIRS = ("fill_drain", "saw")
 LEVELS = [0.6, 1.5, 3.0, 4.5, 5.9]
 PRESS = [22.0, 29.0]
 TMIN, TMAX = 0.5, 6.0
@@ -88,6 +89,8 @@ def cases(tier):
                 lo = b if hi is a else a
                 if lo["thr"] >= hi["thr"]:
                     continue
+            if tier == "thorough" and not hyst and pat not in DEM_PAIRS:
+                continue                      # all non-hysteresis pairs under two of the four demand patterns (run-time bound)
             pairs.append([a, b])
         sets += pairs
         if tier == "thorough":
